@@ -261,7 +261,8 @@ def plan_roundtrip(fmt, seed, tier):
                     lin["path"] = path
                     path_ref[path] = lin["ref"]
                     rop = {"op": "READ", "fmt": fmt, "path": path, "as": b.handle(),
-                           "pathstyle": rng.choice(["abs", "rel"])}
+                           "pathstyle": rng.choice(["abs", "rel"]),
+                           "reader": rng.choice(["fresh", "fresh", "reuse"])}
                     if fmt == "json" and rng.random() < 0.3:
                         rop["via"] = "parse_json"
                     if faulty and rng.random() < 0.1:
@@ -279,7 +280,8 @@ def plan_roundtrip(fmt, seed, tier):
                     lin["ref"] = new
             elif k < 0.8 and lin["path"] is not None:
                 rop = {"op": "READ", "fmt": fmt, "path": lin["path"], "as": b.handle(),
-                       "pathstyle": rng.choice(["abs", "rel"])}
+                       "pathstyle": rng.choice(["abs", "rel"]),
+                       "reader": rng.choice(["fresh", "reuse", "reuse"])}
                 if fmt == "json" and rng.random() < 0.5:
                     rop["via"] = "parse_json"
                 b.op(**rop)
@@ -463,7 +465,12 @@ def plan_ops(seed, tier, metrics_bias=False):
                 b.op(op="NEW", m=h2, ref=ref2, style="td", frag="whole")
                 live.append([h2, ref2, cfg2, True])
     b.plan["replicas"] = [{"env": {}, "disk_cfg": {}}]
-    if rng.random() < (0.3 if tier == "quick" else 0.6):
+    k = rng.random()
+    if k < 0.45:
+        # history-free twin: every model's operations in an interpreter of their own; results
+        # must be the same as in the shared long-lived session
+        b.plan["replicas"].append({"isolate": True, "env": {}, "disk_cfg": {}})
+    elif k < (0.65 if tier == "quick" else 0.9):
         b.plan["replicas"].append({"env_by_segment": [_seg_env(rng) for _ in range(2)],
                                    "disk_cfg": {}})
     return b.plan
@@ -518,6 +525,9 @@ def plan_uvl_peer(seed, tier):
                 if faulty and rng.random() < 0.15:
                     rop["fault"] = b.read_fault()
                 b.op(**rop)
+                if rng.random() < 0.25:     # the same reader object asked again
+                    b.op(op="READ", fmt="uvl", path=path, pathstyle=rop["pathstyle"],
+                         reader="reuse")
             elif k < 0.9:
                 neg = peers.uvl_negative(text, rng)
                 if neg is None:
@@ -525,7 +535,10 @@ def plan_uvl_peer(seed, tier):
                 bad, why = neg
                 b.op(op="PUT", path=path, fmt="uvl", b64=_b64(bad), prop="C04",
                      tags=tags + ["invalid." + why], expect={"kind": "raise", "why": why})
-                b.op(op="READ", fmt="uvl", path=path, pathstyle=rng.choice(["abs", "rel"]))
+                style = rng.choice(["abs", "rel"])
+                b.op(op="READ", fmt="uvl", path=path, pathstyle=style)
+                if rng.random() < 0.3:      # a retry on the same reader object must fail too
+                    b.op(op="READ", fmt="uvl", path=path, pathstyle=style, reader="reuse")
             else:
                 # media damage: whatever comes back must be an error or a well-formed model
                 b.op(op="PUT", path=path, fmt="uvl", b64=_b64(text), prop="C04", tags=tags,
@@ -641,6 +654,9 @@ def plan_third_party(seed, tier):
                 if faulty and rng.random() < 0.15:
                     rop["fault"] = b.read_fault()
                 b.op(**rop)
+                if rng.random() < 0.25:     # the same reader object asked again
+                    b.op(op="READ", fmt=fmt, path=path, pathstyle=rop["pathstyle"],
+                         reader="reuse")
             elif k < 0.85 and fmt in ("fide", "xml", "glencoe"):
                 data = text.encode("utf-8")
                 body = data.rstrip()
